@@ -316,4 +316,3 @@ func VerifRegexpCacheStats() (size, capacity, resets int) {
 
 // VerifFormatNumber renders a float64 the way asString does.
 func VerifFormatNumber(f float64) string { return asString(nil, f) }
-
